@@ -280,7 +280,13 @@ func check(c Case) vk.Verdict {
 				continue
 			}
 			key := fmt.Sprintf("dmg-%d", i)
-			_ = st.Set(key, append([]byte{0x01, 0x00}, raw...), 0)
+			if dmg := append([]byte{0x01, 0x00}, raw...); op.Pick == 0 {
+				_ = st.Set(key, dmg, 0)
+			} else {
+				// ... or a copy of somebody's record that ends early (a short read, a partial write): its leading
+				// entries decode before the failure shows
+				_ = st.Set(key, append([]byte(nil), raw[:len(raw)-min(op.Pick, len(raw)-1)]...), 0)
+			}
 			script, doSave = nil, false
 			func() {
 				defer func() { _ = recover() }() // (the session middleware panics on a record it cannot decode)
@@ -576,7 +582,7 @@ func genCase(t *rapid.T) Case {
 			c.Ops = append(c.Ops, ReqOp{Kind: "getbyid", Client: rapid.IntRange(0, 2).Draw(t, "client"), Present: rapid.SampledFrom([]string{"own", "own", "stale", "forged"}).Draw(t, "which"), Pick: rapid.IntRange(0, 5).Draw(t, "pick"),
 				Save: rapid.IntRange(0, 2).Draw(t, "gsave") == 0})
 		case k == 3 && rapid.Bool().Draw(t, "dmg"):
-			c.Ops = append(c.Ops, ReqOp{Kind: rapid.SampledFrom([]string{"damaged", "getfault"}).Draw(t, "faultkind"), Client: rapid.IntRange(0, 2).Draw(t, "client")})
+			c.Ops = append(c.Ops, ReqOp{Kind: rapid.SampledFrom([]string{"damaged", "damaged", "getfault"}).Draw(t, "faultkind"), Client: rapid.IntRange(0, 2).Draw(t, "client"), Pick: rapid.SampledFrom([]int{0, 1, 2, 3, 5, 9}).Draw(t, "cut")})
 		case k == 3:
 			c.Ops = append(c.Ops, ReqOp{Kind: "delete", Client: rapid.IntRange(0, 2).Draw(t, "client"), Present: "own"})
 		default:
